@@ -348,7 +348,7 @@ type wsFile struct {
 	name, src string
 }
 
-var diagLineRE = regexp.MustCompile(`^(.*\.go):(\d+):(\d+): (\w+): (.*)$`)
+var diagLineRE = regexp.MustCompile(`^(.*\.(?:go|tmpl)):(\d+):(\d+): (\w+): (.*)$`)
 
 // endToEnd builds small workspaces and compares the binaries' stderr/exit status with the model's run
 // (through cases) and with the property's sentence (oracle).
@@ -369,6 +369,9 @@ func endToEnd(meta *common.Meta, tier string, rng interface{ Intn(int) int }, ou
 		// a diagnostic whose text quotes several lines of code (newlines, tabs, runs of blanks inside a string)
 		{"ml.go", "package p\n\nfunc run(f func() error) error { return f() }\n\nfunc ML(n int) error {\n\tvar err error\n\tif err = run(func() error {\n\t\tif n > 0 {\n\t\t\tprintln(\"a   b\")\n\t\t\treturn nil\n\t\t}\n\t\treturn nil\n\t}); err != nil {\n\t\treturn err\n\t}\n\treturn err\n}\n"},
 		{"sub/b.go", warnSrc("sub", "B")},
+		// a //line directive after the package clause: the findings behind it are located in the directive's file
+		{"ln.go", "package p\n\nfunc LnBefore(xs []int) bool { return len(xs) >= 0 }\n\n//line tmpl/page.tmpl:4:1\nfunc LnAfter(xs []int) bool { return len(xs) >= 0 }\n"},
+		{"tmpl/page.tmpl", strings.Repeat(strings.Repeat("template text ", 8)+"\n", 12)},
 		// the last package (by import path) and its last file are clean: the exit status must not depend on
 		// which file happens to be checked last
 		{"zz/zclean.go", "package zz\n\nfunc Clean() int { return 1 }\n"},
@@ -388,6 +391,8 @@ func endToEnd(meta *common.Meta, tier string, rng interface{ Intn(int) int }, ou
 		layout{"cwd=sub", mod, filepath.Join(mod, "sub"), filepath.Join(base, "gp-unrelated"), []string{"./...", "m"}},
 		layout{"gopath-contains-module", mod, mod, outer, []string{"./..."}},
 		layout{"gopath-contains-module,cwd=sub", mod, filepath.Join(mod, "sub"), outer, []string{"m/..."}},
+		// the same package named by two arguments is checked once
+		layout{"overlapping-arguments", mod, mod, filepath.Join(base, "gp-unrelated"), []string{"./...", "./sub", "m"}},
 	)
 	// the working directory's path occurs inside the file path without being its prefix
 	nestedCwd := filepath.Join(base, "w")
